@@ -250,12 +250,11 @@ def check_config(chi_sym, kinds_dims, n_obs, times, free_sigma, log_scale, n_s=2
     return out
 
 
-def native_witness(kinds_dims, n_obs, times, free_sigma, log_scale, seed):
+def native_witness(kinds_dims, n_obs, times, free_sigma, log_scale, seed, filter_cls='GaussianFilter', missing=False, n_s=2):
     """real Gaussian filter + polynomial toy mechanistic model + Gaussian priors: value differences and evaluateS1 against finite differences"""
     import chi as real
     import pints
     rng = np.random.default_rng(seed)
-    n_s = 2
     n_times = len(times)
     lay = c02.Layout(kinds_dims, n_s)
 
@@ -298,11 +297,17 @@ def native_witness(kinds_dims, n_obs, times, free_sigma, log_scale, seed):
                 for k_ in range(lay.D):
                     se[:, r, k_] = w_[k_] * 0.3 + (0.2 * t if k_ == 0 else 0.0)
             return out, se
-    case = {'composition': [list(k) for k in kinds_dims], 'n_observables': n_obs, 'times': list(times), 'free_sigma': free_sigma, 'log_scale': log_scale}
+    case = {'composition': [list(k) for k in kinds_dims], 'n_observables': n_obs, 'times': list(times), 'free_sigma': free_sigma, 'log_scale': log_scale, 'filter': filter_cls, 'missing values': missing}
     try:
         pop = c02.build_model(real, kinds_dims, n_s)
         data = rng.uniform(2.0, 6.0, (4, n_obs, n_times))
-        flt = real.GaussianFilter(data)
+        if missing:
+            # missing measurements: different counts per (observable, time) cell, at least two values left in every cell
+            data[0, 0, 0] = np.nan
+            data[1, 0, 0] = np.nan
+            data[2, n_obs - 1, n_times - 1] = np.nan
+        mk_filter = (lambda d_: getattr(real, filter_cls)(d_)) if filter_cls != 'GaussianMixtureFilter' else (lambda d_: real.GaussianMixtureFilter(d_, n_kernels=2))
+        flt = mk_filter(data)
         n_top = lay.n_top + (n_obs if free_sigma else 0)
         prior = pints.ComposedLogPrior(*[pints.GaussianLogPrior(0.5 + 0.1 * k_, 2.0) for k_ in range(n_top)])
         cov = rng.uniform(-1, 1, (1, lay.ncov_total)) if lay.ncov_total else None
@@ -334,7 +339,7 @@ def native_witness(kinds_dims, n_obs, times, free_sigma, log_scale, seed):
         return x_
     psi_sp, dens_sp, _ = lay.spec()
     order = np.argsort(times)
-    flt_ref = real.GaussianFilter(data[:, :, order])
+    flt_ref = mk_filter(data[:, :, order])
     toy = Toy()
 
     def ref(x_):
@@ -389,6 +394,23 @@ def native_witness(kinds_dims, n_obs, times, free_sigma, log_scale, seed):
         if np.isfinite(fd) and not np.isclose(g0[k_], fd, rtol=5e-4, atol=5e-5):
             return dict(case, what='sensitivity %d (%s) is %r, central difference of the posterior %r' % (k_, names[k_], float(g0[k_]), float(fd)), expected=float(fd), observed=float(g0[k_]))
     return None
+
+
+def end_to_end(rec):
+    """bounded run-time contract (never counted as proved): the posterior over every *real* filter class, with and without missing measurements --
+    value differences against prior + population density + noise term + the filter's own log-likelihood at the sorted times, evaluateS1 score and
+    gradient against central differences of the value (the proof above treats the filter by its contract, C12)"""
+    filters = ['GaussianFilter', 'LogNormalFilter', 'GaussianKDEFilter', 'LogNormalKDEFilter', 'GaussianMixtureFilter']
+    cases = [(f_, miss, free, logs) for f_ in filters for miss in (False, True) for (free, logs) in ((False, False), (True, True))]
+
+    def one(case):
+        f_, miss, free, logs = case
+        wit = native_witness((('G', 1, 0), ('P', 1, 0)), 2, [2.0, 0.5, 1.0], free, logs, rec.seed + 3, filter_cls=f_, missing=miss, n_s=4 if f_ == 'GaussianMixtureFilter' else 2)
+        return None if wit is None else '%s%s, %s noise scales, %s noise: %s' % (f_, ' with missing measurements' if miss else '', 'free' if free else 'fixed', 'log-scale' if logs else 'additive', wit['what'])
+    rec.native_check('end-to-end[real filters]', ['chi._log_pdfs.PopulationFilterLogPosterior.__call__', 'chi._log_pdfs.PopulationFilterLogPosterior.evaluateS1'] +
+                     ['chi._population_filters.%s.compute_sensitivities' % f_ for f_ in filters], cases, one,
+                     '5 filter classes x {complete, missing measurements with different counts per cell} x {fixed additive, free log-scale noise}; Gaussian + pooled population, 2 observables, 3 unsorted times, '
+                     '2 simulated individuals (4 for the 2-kernel mixture); gradient vs central differences at one seeded vector; distinct by (filter, missing, noise)', exhaustive=True)
 
 
 OBS = ['usable', 'layout.blocks', 'time.order', 'call.sites', 'call.value', 's1.paths', 's1.sites', 's1.same-score', 's1.grad', 'names.map', 'ids.map', 'names.with-ids']
@@ -456,4 +478,4 @@ def run_chunk(rec, cid, n_chunks):
 
 
 N_CHUNKS = 16
-TASKS = [('chunk%02d' % c, (lambda rec, c=c: run_chunk(rec, c, N_CHUNKS))) for c in range(N_CHUNKS)]
+TASKS = [('chunk%02d' % c, (lambda rec, c=c: run_chunk(rec, c, N_CHUNKS))) for c in range(N_CHUNKS)] + [('end-to-end', end_to_end)]
